@@ -180,7 +180,7 @@ def pGenerated (d : Gen.D) (f : Nat) (ts : List Tok) : R (Option GenCol) :=
        | .error e => .error e
        | .ok e => match popSrc r with
          | .error e => .error e
-         | .ok (m, r1) => match Gen.genColSaveModes.find? (·.1 == m) with
+         | .ok (m, r1) => match Gen.genColSaveModes.find? (·.1 == up m) with
            | some sm => .ok (some ⟨e, some sm.2⟩, r1)
            | none => .error .parse)
   else .ok (none, ts)
